@@ -294,7 +294,21 @@ def conv_ghost(pid, cfg, m, failure):
         return None
     ext = [tuple(m['box%d_n%d' % (k, d)] for d in range(3)) for k in range(mm)]
     boxes, dom = boxes_along_x(ext)
-    chk = RefChk('k', dom, [boxes], nsp=nsp, ghost=m['ghost'])
+    chk = RefChk('k', dom, [boxes], nsp=nsp, ghost=m['ghost'], payload='none')
+    # the lemma leaves the length of a FAB header line free (20..400): a counterexample that needs a long line (a reader that
+    # bounds its readline) is realised by moving the boxes to cell indices with enough digits
+    want = {'state': max([m.get('st%d_hlen' % k, 0) for k in range(mm)]), 'gradp': max([m.get('gp%d_hlen' % k, 0) for k in range(mm)]),
+            'I_R': max([m.get('ir%d_hlen' % k, 0) for k in range(mm)])}
+    for p10 in range(0, 9):
+        base = 0 if p10 == 0 else 10 ** p10
+        sboxes = [(tuple(x + base for x in lo), tuple(x + base for x in hi)) for lo, hi in boxes]
+        sdom = tuple(x + base for x in dom)
+        chk = RefChk('k', sdom, [sboxes], nsp=nsp, ghost=m['ghost'], payload='none')
+        if p10 == 0:
+            natural = {sub: min(len(chk.fab_header(sub, 0, k)) for k in range(mm)) for sub in want}
+        if all(w <= natural[sub] or len(chk.fab_header(sub, 0, k)) >= w for sub, w in want.items() for k in range(mm)):
+            break
+    chk = RefChk('k', sdom, [sboxes], nsp=nsp, ghost=m['ghost'])
     c17.SPECIES[:] = ['S%d' % i for i in range(nsp)]
     fs = SymFS()
     chk.write_symfs(fs, '/work/run/chk00005')
